@@ -160,7 +160,7 @@ Definition num_eq (a b : value) : option bool :=
   end.
 
 (* a == b on data made of None/bool/int/float/str/bytes/list/tuple/str-keyed dict (what encode_object produces)
-   and dates; objects without __eq__ compare by identity, and a stored object is never the one just computed:
+   dates and datetimes; objects without __eq__ compare by identity, and a stored object is never the one just computed:
    false.  (CPython's identity shortcut inside containers, visible only for NaN items, is not modelled.) *)
 Fixpoint py_eq (a b : value) {struct a} : bool :=
   let fix list_eq (l m : list value) {struct l} : bool :=
@@ -186,6 +186,12 @@ Fixpoint py_eq (a b : value) {struct a} : bool :=
     | PTuple l, PTuple m => list_eq l m
     | PDict l, PDict m => (Nat.eqb (List.length l) (List.length m)) && dict_sub l m
     | PDate x, PDate y => x =? y
+    | PDateTime w tz, PDateTime w' tz' =>
+        match utcoffset orc w tz, utcoffset orc w' tz' with
+        | Some o, Some o' => (w - o) =? (w' - o')
+        | None, None => w =? w'
+        | _, _ => false
+        end
     | _, _ => false
     end
   end.
